@@ -12,18 +12,30 @@ import itertools
 from . import okv, proto
 
 LEVEL = "fault_enumeration"
-RULE = ("per suite and world (default parameters; explicit identities+context; absent password file): assignments of a "
+RULE = ("per suite and world (default parameters; explicit identities+context; absent password file; static key at the edge of the key space): assignments of a "
         "codec in {none, native, bincode, JSON} to each of the 6 persistence points (quick: all single-point reloads, "
         "all same-codec-everywhere, 96 random assignments; thorough: ALL 4^6 = 4096); non-trivial = an assignment with "
         "at least one reload whose run completed and was compared with the baseline; distinct = distinct (suite, world, "
         "assignment)")
 ASSUMPTIONS = ["variants replay the baseline's RNG seed, so any difference is caused by the reload",
                "in-flight states and setup are compared through their native encodings and PartialEq"]
-EXHAUSTIVE = {"thorough": "all 4^6 assignments of {none,native,bincode,json} to the 6 persistence points, 3 worlds x 20 suites"}
+EXHAUSTIVE = {"thorough": "all 4^6 assignments of {none,native,bincode,json} to the 6 persistence points, 4 worlds x 20 suites"}
 JOB_TIMEOUT = {"quick": 900, "thorough": 7200}
 CODECS = [None, "native", "bincode", "json"]
 POINTS = ["setup@registration", "setup@login", "password_file", "client_registration", "client_login", "server_login"]
-WORLDS = [("default", None, None, None, False), ("explicit", b"alice", b"server", b"ctx", False), ("fake-record", None, b"srv", None, True)]
+WORLDS = [("default", None, None, None, False), ("explicit", b"alice", b"server", b"ctx", False), ("fake-record", None, b"srv", None, True),
+          ("boundary-static-key", None, None, b"c", False)]
+
+
+def boundary_key(sz):
+    """a valid static key at the edge of the key space: order-1 (NIST, ristretto255), the smallest clamped key (Curve25519)"""
+    from .refmodel import c25519, nist
+    if sz.ke == "x25519":
+        return c25519.clamp(bytes(32))
+    if sz.ke == "r255":
+        return (c25519.L - 1).to_bytes(32, "little")
+    c = {"p256": nist.P256, "p384": nist.P384, "p521": nist.P521}[sz.ke]
+    return (c.n - 1).to_bytes(c.flen, "big")
 
 
 def jobs(tier, seed):
@@ -72,7 +84,13 @@ def run_flow(s, su, wseed, world, assign, problems):
 
     out = []
     rng = s.rng("r", wseed)
-    st = s.cmd("setup_new", rng=rng, out="S")
+    if world[0] == "boundary-static-key":
+        st = s.cmd("setup_new_with_key", rng=rng, sk=boundary_key(s.sz), out="S")
+    else:
+        st = s.cmd("setup_new", rng=rng, out="S")
+    if st.failed:
+        problems.append(("step failed", "setup", None, dict(st)))
+        return None, 1
     out.append(st.ser)
     S = reload("S", "setup", assign[0], POINTS[0])
     pw, cred = b"password", b"cred-id"
@@ -187,7 +205,7 @@ def run_job(job):
 
 def floors(tier, stats, results):
     out = []
-    missing = [x for x in okv.SUITES20 if stats.get("suites", {}).get(x, 0) < 3 * 100]
+    missing = [x for x in okv.SUITES20 if stats.get("suites", {}).get(x, 0) < 4 * 100]
     if missing:
         out.append("fewer than 100 assignments per world for suites %s" % missing)
     for p in POINTS:
